@@ -126,8 +126,10 @@ Qed.
 Lemma continue_loop_budget : forall r fuel s s' o x, _continue_backlog_loop fuel s r = (s', o, x) -> budget_ok s s' o.
 Proof.
   intros r. induction fuel as [|f IH]; intros s s' o x H; cbn [_continue_backlog_loop] in H; [invpairs; apply budget_refl|].
-  destruct (exchanges s); [|invpairs; apply budget_refl]. destruct (has_exchange r l); [invpairs; apply budget_refl|].
-  destruct (alookup Z.eqb r (backlogs s)) as [[|[w m] rest]|]; try (invpairs; apply budget_frame; reflexivity).
+  destruct (exchanges s); [|invpairs; apply budget_refl].
+  destruct (alookup Z.eqb r (backlogs s)) as [bl|]; [|invpairs; apply budget_refl].
+  destruct (has_exchange r l); [invpairs; apply budget_refl|].
+  destruct bl as [|[w m] rest]; [invpairs; apply budget_frame; reflexivity|].
   destruct (_send_initially _ r w (Some m)) as [s1 o1] eqn:S. apply send_initially_budget in S.
   destruct (_continue_backlog_loop f s1 r) as [[s2 o2] x2] eqn:L. apply IH in L. invpairs.
   eapply budget_trans; [|exact L]. eapply budget_same_reqs; [|exact S]. reflexivity.
@@ -186,11 +188,7 @@ Proof.
   intros s r mid s' o H. unfold _retransmit in H. destruct (exchanges s); [|invpairs; apply budget_refl].
   destruct (alookup rm_eqb (r, mid) l); [|invpairs; apply budget_frame; reflexivity].
   destruct (ex_counter e <? 4).
-  - destruct (_send_via_transport _ r (ex_msg e)) as [s2 o2] eqn:S. apply send_via_transport_budget in S.
-    assert (B : budget_ok s s2 o2) by (eapply budget_same_reqs; [|exact S]; reflexivity).
-    destruct (exchanges s2); invpairs.
-    + intros q. specialize (B q). exact B.
-    + eapply budget_trans; [exact B|apply budget_frame; reflexivity].
+  - apply send_via_transport_budget in H. eapply budget_same_reqs; [|exact H]. reflexivity.
   - destruct (amem Z.eqb r _); [|invpairs; apply budget_frame; reflexivity].
     apply tm_dispatch_error_budget in H. intros q. specialize (H q). exact H.
 Qed.
